@@ -88,9 +88,52 @@ func (g *g) script(max int) string {
 
 func (g *g) sub(verb string, script string) { fmt.Fprintf(g.w, "%s script=%s\n", verb, script) }
 
+// subDuring: a submission body during which the aggregation loop commits a block (after the pending list was read: at
+// the body's first signer call, or at its first Submit call)
+func (g *g) subDuring(verb, script string, empty bool, at string) {
+	txs := "-"
+	if !empty {
+		g.seq++
+		txs = hx.HexList([][]byte{[]byte(fmt.Sprintf("w%d", g.seq))})
+	}
+	fmt.Fprintf(g.w, "%s script=%s during=produce:%s at=%s\n", verb, script, txs, at)
+}
+
+// raceCorpus: blocks committed while a submission body runs. First the case a check-then-act slip needs: everything
+// pending is EMPTY and a NON-EMPTY block is committed in the window - the data watermark must stop at the last block the
+// body examined; then the other combinations, both interleaving points, both loops; then submission, inclusion.
+func (g *g) raceCorpus(ih, maxp uint64) {
+	for _, at := range []string{"sign", "submit"} {
+		for _, emptyPending := range []bool{true, false} {
+			for _, emptyNew := range []bool{false, true} {
+				g.reset(ih, maxp)
+				g.produce(emptyPending)
+				g.produce(true)
+				g.subDuring("subd", "-", emptyNew, at)
+				g.subDuring("subh", "ok:1|canceled", emptyNew, "submit")
+				g.sub("subh", "-")
+				g.sub("subd", "-")
+				g.sub("subd", "-")
+				fmt.Fprintln(g.w, "incl")
+				fmt.Fprintln(g.w, "restart")
+				g.sub("subd", "-")
+				fmt.Fprintln(g.w, "incl")
+			}
+		}
+	}
+}
+
 // subMaybeReal: a share of the ticks run the unmodified loop goroutine (until nothing is pending) instead of the
 // single-iteration hook
 func (g *g) subMaybeReal(verb string, script string, pct int) {
+	if g.r.Chance(10) { // a block is committed while the body runs
+		at := "submit"
+		if verb == "subd" && g.r.Bool() {
+			at = "sign"
+		}
+		g.subDuring(verb, script, g.r.Chance(40), at)
+		return
+	}
 	if g.r.Chance(pct) {
 		verb += "real"
 	}
@@ -126,6 +169,7 @@ func GenC06(r *hx.Rng, tier string, w io.Writer) {
 			x.sub(verb, "-")
 		}
 	}
+	x.raceCorpus(1, 0)
 	// the unmodified loop goroutines: every single answer, then the DA layer accepts; an outage longer than the
 	// attempt bound of a tick; trailing empty blocks (two data ticks)
 	for _, a := range []string{"-", "ok:1", "ok:0|lost:2", "lost|notincluded|inmempool", "toobig|error|canceled|ok:1", strings.TrimSuffix(strings.Repeat("error|", 33), "|")} {
@@ -254,6 +298,7 @@ func GenC07(r *hx.Rng, tier string, w io.Writer) {
 		fmt.Fprintln(w, "crash keep=9")
 		fmt.Fprintln(w, "incl")
 	}
+	x.raceCorpus(2, 0)
 	// outages through the unmodified submission loop goroutines, then inclusion: everything is reported
 	for i, sc := range outages {
 		x.reset(uint64(1+i%3), 0)
@@ -351,6 +396,7 @@ func GenC08(r *hx.Rng, tier string, w io.Writer) {
 	x.produce(true)
 	x.reset(5, 3)
 	x.produce(false)
+	x.raceCorpus(1, 4)
 	// an outage of finite length through the unmodified loop goroutines, then the DA layer accepts: production, refused
 	// at the limit, must resume (C08: "resumes as soon as the DA layer has accepted them")
 	for i, sc := range outages {
